@@ -7,6 +7,9 @@ checks = {
  "C01": ("datastream", "TLC proves the declarative RFC definition and the operational six-state automaton of DataStream.tla equal for all class streams up to the bound; the real dataReader is then driven on every class stream x read size x segmentation with the TLC-dumped automaton as oracle",
          "layer equality is bounded (length 9 quick / 11 thorough); the automaton is the oracle for longer random streams; table interpreter cross-checked against TLC's own runs",
          "TLA+ two-layer equivalence (TLC) + automaton-driven conformance sweep of the real reader"),
+ "C02": ("datastream+session", "DataStream.tla: TLC proves end-of-data is reported exactly at the first CRLF.CRLF (or leading .CRLF) and nowhere else, for all class streams up to the bound; the real reader is swept for the end position; end to end, messages built from every short class stream plus bait command lines and every terminator look-alike are sent with marker commands pipelined behind them under backend behaviours {read all, part, none} x {accept, reject} x limit {none, below, at, above} x {SMTP, LMTP, LMTP per-recipient} x three segmentations; the recorded conversations are validated by TLC against SmtpServer.tla (reply structure) and the harness checks that the command after the marker is exactly the next one executed and no bait line reaches the backend",
+         "templates are cut at their FIRST end marker as computed by the TLC-dumped automaton; combos are sampled round-robin over the templates, not the full product",
+         "TLA+ model checking (TLC) + automaton-driven sweep + TLC trace validation of end-to-end conversations"),
  "C03": ("session", "TLC checks the transaction-order invariants and step properties on the complete bounded state graph of SmtpServer.tla (12 configurations); every transition is executed on the real server (replies, callbacks, projected state compared) and recorded random walks are validated by TLC against the specification",
          "bounded instance (<=3 recipients, chunk sizes {0,6}, error threshold 3); one concrete line per abstract command; TLC, concretisation tables and in-memory transport trusted", SESS),
  "C06": ("datastream+session", "DataStream.tla with a budget (TLC: never more than N, failure only when longer, a fitting message handled as without limit); reader sweep over budgets; end-to-end sizes N-2..N+2 around three limits via DATA in SMTP and LMTP; SIZE= and over-limit BDAT edges of the session graph replayed",
